@@ -55,6 +55,7 @@ def gam(T, m, x, model):
 
 def record(tw, rng, n, stats, probe_cap=60):
     probes = 0
+    carry = None          # a mass-fraction composition OBJECT that the previous mixture has already been asked with
     for j in range(n):
         u = rng.random()
         raoult = u < 0.06
@@ -95,6 +96,9 @@ def record(tw, rng, n, stats, probe_cap=60):
             # partial pressures from a mass-fraction and from the equivalent mole-fraction input
             w = gen.fraction(rng)
             cw = pv.Composition(p=w, type="weight")
+            if carry is not None and rng.random() < 0.5:
+                cw, w = carry, carry.p      # the caller sweeps one feed specification over several mixtures / models
+            carry = cw
             M1, M2 = float(m.first_component.molecular_weight), float(m.second_component.molecular_weight)
             cx = pv.Composition(p=(w / M1) / (w / M1 + (1 - w) / M2), type="molar")      # Composition.tla's ToMolarP, independent of the code
             pw = pv.get_partial_pressures(T, m, cw, model)
